@@ -189,4 +189,58 @@ PROPS = {
         exhaustive_note="thorough tier: every one of the 65536 alias values is written once (alias = case number)",
         runs=[native("alias-release", "c14", "release"), native("alias-debug", "c14", "debug", args={"scale-pct": dict(quick=20, thorough=2)})],
     ),
+
+    "C10": dict(
+        level="fault_enumeration",
+        engine="simnet",
+        technique="runtime monitoring against simulated AL state machines with scripted reactions (accept after k status polls, refuse with a status code, stall, accept then fall back); oracle over the AL-control write log and the value each member's AL status register held at its last read, plus a reference evaluation of the TxRxResponse summaries",
+        level_text=("Networks of 1..16 devices in 1..3 groups, frame sizes 58..1514 so that a status round needs 1..3+ frames; each member independently accepts after 0..5 polls, refuses (5 status codes), stalls or falls back later; transitions into_safe_op, into_op, into_init, into_pre_op, request_into_op. "
+                    "Held = Ok only if every member's AL status at its last read was the requested state; any refusing/stalling member gives Err within state_transition+pdu timeout of virtual time; the requested state is written to every member and to no non-member; the per-cycle state list and all_op/group_in_single_state/is_in_state/group_state equal a reference evaluation over the reported states (alphabet None/INIT/PRE-OP/SAFE-OP/OP; BOOTSTRAP/other recorded only)."),
+        level_note="'At the moment it was checked' is evaluated per device at its last status read. Polls, not wall time, drive the scripted devices.",
+        rule="case = one scenario (network, grouping, transition, per-member reaction script); non-trivial = at least 2 devices or one non-accepting member; distinct by scenario hash",
+        assumptions=["virtual time"],
+        min_distinct=dict(quick=400, thorough=40000),
+        required_counters=["transition_ok", "transition_err", "cycles", "summaries_judged", "path.into_op", "path.into_init", "path.request_into_op", "frame_len.58"],
+        runs=[native("al-release", "c10", "release"), native("al-debug", "c10", "debug", args={"scale-pct": dict(quick=25, thorough=5)})],
+    ),
+    "C11": dict(
+        level="fault_enumeration",
+        engine="simnet",
+        technique="runtime monitoring against the simulated wire's ground-truth working counter: every single-datagram public entry point x present/absent address x wire altering the counter x expected count 0..3; compound operations with the device unplugged at every step index",
+        level_text=("Part A: receive/receive_slice/send_receive/send_receive_slice over FPRD/BRD/APRD/LRD/FPWR/BWR/APWR/LRW with default, with_wkc(0..3) and ignore_wkc, against 1..4 devices, absent stations/positions/logical addresses and a wire adding -1/+1/+2: Ok iff the counter the wire returned equals the expected one, otherwise exactly WorkingCounter{expected, received} with the wire's numbers. "
+                    "Part B: register_read/write, status, eeprom_read_raw/eeprom_read, sdo_read/sdo_write, into_safe_op/into_op with the addressed device unplugged at a chosen frame of the operation (length measured by a clean run first): must be Err, never data or success."),
+        level_note="WrappedWrite::send and ignore_wkc callers are outside the quantifier (counted as opted out).",
+        rule="case = (entry point, addressing, fault, expected count) or (operation, victim, unplug step); distinct by that tuple",
+        assumptions=[],
+        min_distinct=dict(quick=1500, thorough=150000),
+        required_counters=["A.counter_matches", "A.counter_differs", "A.opted_out", "B.rejected", "B.op.sdo_read", "B.op.into_op", "B.op.eeprom_read_raw", "A.cmd.12", "A.cmd.10"],
+        runs=[native("wkc-release", "c11", "release"), native("wkc-debug", "c11", "debug", args={"scale-pct": dict(quick=25, thorough=5)})],
+    ),
+    "C08": dict(
+        level="exploration",
+        engine="simnet",
+        technique="runtime monitoring with a functional oracle on the simulated devices' process RAM: after the real init + into_safe_op/into_op, distinct patterns are written to every device's outputs and input memory, one cycle runs, and RAM snapshots / group images are diffed; window geometry from the io_raw() slices; FMMU logical ranges read back from the simulated registers",
+        level_text=("Networks of 1..16 devices with 0..8 PDOs per direction (entries 1..64 bits), one or two sync managers per direction with contiguous and non-contiguous buffers, EEPROM and CoE configuration paths, with/without FMMU_EX and oversampling, 1..3 groups, MAX_PDI 32/128/1024. "
+                    "Held = windows inside the image, inputs before outputs, disjoint, byte length == what the PDO configuration (x oversampling) needs; outputs arrive in exactly that device's output sync-manager memory and nowhere else, input memory appears in exactly that device's inputs; groups' logical ranges disjoint; a layout exceeding MAX_PDI gives Err(PdiTooLong). The simulated application refuses SAFE-OP when a sync manager length contradicts the PDO mapping."),
+        level_note="The simulator implements all 16 FMMUs/SMs whatever the EEPROM advertises, so which FMMU index is picked is not judged, only that the mapping works. After a group was (rightly) refused with PdiTooLong, what other groups observe is not judged.",
+        rule="case = one network scenario; non-trivial = at least 2 devices or any process data; distinct by scenario hash",
+        assumptions=["MAX_PDI below 64 KiB"],
+        min_distinct=dict(quick=200, thorough=20000),
+        required_counters=["device.coe", "device.eeprom", "device.coe+multi-sm", "device.eeprom+multi-sm", "device.eeprom+fmmu_ex", "pdi_too_long_rejected", "windows", "groups_checked"],
+        runs=[native("map-release", "c08", "release"), native("map-debug", "c08", "debug", args={"scale-pct": dict(quick=20, thorough=5)})],
+    ),
+
+    "C07": dict(
+        level="exploration",
+        engine="simnet",
+        technique="runtime monitoring of the simulated wire during exactly one tx_rx / tx_rx_sync_system_time / tx_rx_dc call: the LRW datagrams must tile the group's logical window, the DC datagram must be first and unique, image/working counter/state list are compared with what the simulated devices hold and answered; a deterministic lock turns a self-deadlock into an observable event",
+        level_text=("Groups built by the real init on simulated devices whose PDO sizes give the wanted (inputs, outputs) split: image 0..2048 bytes incl. 1486/1487/1500 around the single-frame limit, splits {0, 1, mid, all}, 0..64 devices, frame sizes 50..1514 chosen around every boundary where image, DC datagram and state checks meet the frame end (+-2 bytes), all three cycle variants, random image and device answers. "
+                    "Held = contiguous tiling without gap/overlap, every datagram fits the frame, exactly one FRMW(ref, 0x0910, 8) first in DC variants with the returned time equal to the reference clock's answer, inputs == network answer, outputs unchanged and == bytes on the wire, working counter == sum over LRW datagrams, one state entry per SubDevice in group order, frame count within the packing bound, and the call returns (no self-deadlock, no hang)."),
+        level_note="Frame sizes below 50 bytes cannot carry ethercrab's own init traffic and are therefore not reachable. The frame-count bound is the greedy packer's upper bound, no tighter claim.",
+        rule="case = (image length, split, devices, frame size, variant); non-trivial = at least 2 frames or a non-empty image; distinct by scenario hash",
+        assumptions=[],
+        min_distinct=dict(quick=300, thorough=30000),
+        required_counters=["multi_frame_cycles", "variant.tx_rx", "variant.tx_rx_sync_system_time", "variant.tx_rx_dc", "frames"],
+        runs=[native("cycle-release", "c07", "release"), native("cycle-debug", "c07", "debug", args={"scale-pct": dict(quick=15, thorough=3)})],
+    ),
 }
